@@ -49,7 +49,7 @@ def showOutcome : Outcome → String
   | .crashed => "crashed"
 
 def respond (r : St × Outcome) : St × String :=
-  (r.1, s!"{showOutcome r.2}|{String.intercalate "," (r.1.out.map showOut)}|{showState r.1}")
+  (r.1, s!"{showOutcome r.2}|{String.intercalate "," (r.1.g.out.map showOut)}|{showState r.1}")
 
 def stepLine (s : St) (line : String) : St × String :=
   match fields line with
